@@ -9,7 +9,14 @@ def for_property(pid, tier):
     return [m for m in MODELS if pid in m["props"] and tier in m["tiers"]]
 
 
-MODELS = []
+MODELS = [
+    {"name": "MC_Tree (<= 4 blocks, diffs {1,2}, thr {1,2}, mainnet + regtest with depth bound 2)",
+     "module": "MC_Tree", "cfg": "MC_Tree_quick.cfg", "props": ["C02", "C03", "C04", "C07", "C10", "C14"],
+     "tiers": ["quick"], "workers": 12, "timeout": 600},
+    {"name": "MC_Tree (<= 5 blocks, diffs {1,2}, thr {1,2}, mainnet + regtest with depth bound 2)",
+     "module": "MC_Tree", "cfg": "MC_Tree_thorough.cfg", "props": ["C02", "C03", "C04", "C07", "C10", "C14"],
+     "tiers": ["thorough"], "workers": 16, "timeout": 3000, "heap": "24g"},
+]
 
 
 def run_model(m, wd):
